@@ -98,7 +98,7 @@ def main(ctx):
     if not h or not d:
         ctx.violation("build of harness/driver failed (cannot tie the model to /repo)", "build failure\n", found_input=False)
         ctx.finish()
-    total = 6000 if ctx.thorough else 800
+    total = 12000 if ctx.thorough else 2400
     shards = run_mode(ctx, h, d, "store", total)
     n_cases = n_steps = 0
     distinct = set()
@@ -150,7 +150,7 @@ def main(ctx):
         "evaluations": n_steps,
         "histories": n_cases,
         "distinct_nontrivial": len(distinct),
-        "rule": "random update histories over a label universe of 1-6 (weights: 30% new_argument, 15% remove_argument, 35% new_attack, 20% remove_attack; 1/6 self-attacks; initial label lists with repetitions); after every operation result and all observables compared with (a) an independent python set model and (b) the extracted Coq model; non-trivial = history containing a removal and an attack insertion; distinct = distinct operation lists",
+        "rule": "random update histories over a label universe of 1-6; one history in three starts with a planned churn scenario (fan-in, fan-out or dense attack set inserted in a random order, then removed in another random order, then possibly the hub argument removed) (weights: 30% new_argument, 15% remove_argument, 35% new_attack, 20% remove_attack; 1/6 self-attacks; initial label lists with repetitions); after every operation result and all observables compared with (a) an independent python set model and (b) the extracted Coq model; non-trivial = history containing a removal and an attack insertion; distinct = distinct operation lists",
         "samples": samples,
         "distribution": kinds,
         "traces_validated_against_impl": n_cases,
